@@ -18,6 +18,8 @@ namespace c18
         // xsimd::is_aligned<A>(p) asked by the caller directly on allocate's result, in the caller's own translation unit and inlining context
         // (bit 0: 16-byte architecture, bit 1: 32-byte, bit 2: 64-byte); -1 = not evaluated
         int is_aligned_seen = -1;
+        // xsimd::get_alignment_offset(p, 64, 64 / sizeof(T)) asked the same way (-1: not evaluated, e.g. sizeof(T) does not divide 64)
+        long offset_seen = -1;
     };
 
     enum VecStep
